@@ -158,6 +158,37 @@ def reader_codes():
     return _codes_of([ParserField.parse_value, TypeTransformer.__call__, TypeTransformer.apply])
 
 
+_HOT = {}
+
+
+def hot_lines():
+    """(write lines, read lines) inside the anchor functions: source lines that store into / read from the state that is
+    initialised lazily and shared between threads. Found by a textual scan of the anchors' source (no hook in /repo)."""
+    if _HOT:
+        return _HOT["w"], _HOT["r"]
+    import inspect
+    import re
+    w_re = re.compile(r"(\.pop\(|\.clear\(|\.update\(|\.append\(|setattr\(|__forward_evaluated__\s*=[^=]|__forward_value__\s*=[^=]|"
+                      r"\.type\s*(,\s*\w+\s*)?=[^=]|\.output_type\s*(,\s*\w+\s*)?=[^=]|self\.\w+\s*(,\s*\w+)?\s*=[^=]|cls\.__\w+__\s*=[^=]|"
+                      r"_cache\[|cache\[\w+\]\s*=|_registry\s*=|_cache\s*=|__parsers__\[)")
+    r_re = re.compile(r"(forward_refs|\.type\b|output_type|__forward_evaluated__|__forward_value__|_cache\b|\bcache\b|_registry|"
+                      r"generator_\w+_type|return_type|position_type|addition_type|__parsers__|__args__|__arg_transformers__)")
+    w, r = set(), set()
+    for code in set(anchor_codes()) | set(reader_codes()):
+        try:
+            lines, first = inspect.getsourcelines(code)
+        except (OSError, TypeError):
+            continue
+        for off, text in enumerate(lines):
+            t = text.split("#", 1)[0]
+            if w_re.search(t):
+                w.add((code.co_filename, first + off))
+            elif r_re.search(t):
+                r.add((code.co_filename, first + off))
+    _HOT["w"], _HOT["r"] = w, r
+    return w, r
+
+
 def _codes_of(fs):
     codes = set()
     for f in fs:
@@ -223,6 +254,13 @@ class Policy:
             self.segs = [list(s) for s in spec["segments"]]
             self.si = 0
             self.left = self.segs[0][1] if self.segs else 0
+        if self.kind == "acuts":
+            # [[tid, n], ...]: thread tid runs until it has passed n anchor points, then the next cut's thread runs, ...;
+            # afterwards everything runs to completion in id order. Two cuts place one thread inside a chosen region of a
+            # lazily-initialising function and stop a second one inside another chosen region: the shape races need.
+            self.cuts = [list(c) for c in spec["cuts"]]
+            self.ci = 0
+            self.acount = 0
 
     def first(self, runnable):
         k = self.kind
@@ -241,7 +279,17 @@ class Policy:
             if self.si < len(self.segs):
                 return self.segs[self.si][0]
             return runnable[0]
+        if k == "acuts":
+            return self._acut_pick(runnable)
         return self.rng.choice(runnable) if k != "quantum" else runnable[0]
+
+    def _acut_pick(self, runnable):
+        while self.ci < len(self.cuts) and self.cuts[self.ci][0] not in runnable:
+            self.ci += 1
+            self.acount = 0
+        if self.ci < len(self.cuts):
+            return self.cuts[self.ci][0]
+        return runnable[0]
 
     def _adv(self):
         self.si += 1
@@ -255,6 +303,11 @@ class Policy:
             return self.first(runnable)
         if self.kind == "sequential":
             return self.first(runnable)
+        if self.kind == "acuts":
+            if self.ci < len(self.cuts) and self.cuts[self.ci][0] == tid:
+                self.ci += 1
+                self.acount = 0
+            return self._acut_pick(runnable)
         if self.kind in ("pct", "apct"):
             return max(runnable, key=lambda t: self.prio[t])
         if self.kind == "quantum":
@@ -286,6 +339,24 @@ class Policy:
             if seg_steps >= self.spec["q"]:
                 later = [t for t in runnable if t > tid]
                 return (later or runnable)[0]
+            return tid
+        if k == "acuts":
+            if self.ci >= len(self.cuts):
+                return tid
+            if self.cuts[self.ci][0] != tid:
+                want = self._acut_pick(runnable)
+                return want
+            want_region = self.cuts[self.ci][2] if len(self.cuts[self.ci]) > 2 else "a"
+            if want_region in ("W", "R"):
+                counts = getattr(self, "hot", None) == want_region
+            else:
+                counts = in_anchor and (want_region == "a" or want_region == getattr(self, "region", None))
+            if counts:
+                self.acount += 1
+                if self.acount >= self.cuts[self.ci][1]:
+                    self.ci += 1
+                    self.acount = 0
+                    return self._acut_pick(runnable) if self.ci < len(self.cuts) else tid
             return tid
         if k == "apct":
             # PCT whose scheduling points are the anchor points only: far fewer points, so a bug of depth d is hit
@@ -344,6 +415,13 @@ class Scheduler:
         self.switch_locs = []    # (file, line) at each pre-emptive switch
         self.events = []         # (vstep, tid, kind, opidx, outcome)
         self.anchor_depth = [0] * nthreads
+        self.apoints = [0] * nthreads
+        self.writer_depth = [0] * nthreads
+        self.hot_w, self.hot_r = hot_lines()
+        self.hotw_points = [0] * nthreads
+        self.hotr_points = [0] * nthreads
+        self.wpoints = [0] * nthreads      # points inside the lazily-initialising (writer) anchors
+        self.rpoints = [0] * nthreads      # points inside reader anchors only
         self.mid_op = [False] * nthreads
         self.probes = {}
         self.nontrivial_switches = 0
@@ -354,12 +432,16 @@ class Scheduler:
     def _tracer(self, tid):
         anchors = self.anchors
 
+        writers = self.bytecode_codes
+
         def local(frame, event, arg):
             if event == "line":
                 self.point(tid, frame)
             elif event == "return":
                 if frame.f_code in anchors:
                     self.anchor_depth[tid] -= 1
+                    if frame.f_code in writers:
+                        self.writer_depth[tid] -= 1
             return local
 
         def glob(frame, event, arg):
@@ -367,6 +449,8 @@ class Scheduler:
             if code.co_filename.startswith(UTYPE_DIR):
                 if code in anchors:
                     self.anchor_depth[tid] += 1
+                    if code in writers:
+                        self.writer_depth[tid] += 1
                 return local
             return None
         return glob
@@ -387,6 +471,26 @@ class Scheduler:
             self.abort = True
             raise StepBudgetExceeded(f"{self.vstep} virtual steps")
         in_anchor = self.anchor_depth[tid] > 0
+        region = None
+        hot = None
+        if frame is not None:
+            key = (frame.f_code.co_filename, frame.f_lineno)
+            if key in self.hot_w:
+                hot = "W"
+                self.hotw_points[tid] += 1
+            elif key in self.hot_r:
+                hot = "R"
+                self.hotr_points[tid] += 1
+        self.policy.hot = hot
+        if in_anchor:
+            self.apoints[tid] += 1
+            if self.writer_depth[tid] > 0:
+                self.wpoints[tid] += 1
+                region = "w"
+            else:
+                self.rpoints[tid] += 1
+                region = "r"
+        self.policy.region = region
         nxt = self.policy.choose(tid, self.vstep, self.seg_steps, in_anchor, self.runnable())
         if nxt != tid:
             self.switch(tid, nxt, frame, boundary, instr)
@@ -482,6 +586,7 @@ class Scheduler:
                         out = ("exc", e)
                     self.mid_op[tid] = False
                     self.anchor_depth[tid] = 0
+                    self.writer_depth[tid] = 0
                     results[tid][i] = out
                     self.events.append((self.vstep, tid, "return", i))
             except StepBudgetExceeded:
